@@ -36,6 +36,7 @@ static void c08(Tape &t, Ctx &ctx) {
     Prog p(t, ctx.trace, Profile::Reject);
     ctx.trace << "C08: ";
     p.start(fs.a, fs.b);
+    if (!t.chance(25)) { furnishFile(p.f); ctx.trace << "(furnished) "; }
     Ent otherSnap = snapshot(p.other);
     Ent prev = snapshot(p.f);
     size_t nops = 5 + t.below(76);
@@ -81,8 +82,34 @@ static std::string dumpOtherProcess(const std::string &path) {
     return out;
 }
 
+static const Ent *findById(const Ent &e, const std::string &id) {
+    if (e.id == id && e.kind != "file") return &e;
+    for (auto &k : e.kids)
+        for (auto &c : k.second)
+            if (const Ent *r = findById(c, id)) return r;
+    return nullptr;
+}
+
+// what is observable before closing includes what handles obtained earlier report: each of them must
+// show the same entity as a fresh handle (and therefore as the reopened file)
+static void heldHandlesAgree(Prog &p, const Ent &fresh, Ctx &ctx, const char *when) {
+    auto cmp = [&](const Ent &held, const char *what) {
+        const Ent *f = findById(fresh, held.id);
+        if (!f) return; // deleted meanwhile
+        std::string d = diff(held, *f);
+        VCHECK(d.empty(), when << ": a " << what << " handle obtained in an earlier step shows a different entity than the file holds: " << d);
+        ctx.count(std::string("held_handle_compared:") + what);
+    };
+    for (auto &h : p.heldTags) { bool ok = false; try { ok = h.second && h.second.isValidEntity(); } catch (const std::exception &) {} if (ok) cmp(snapTag(h.second), "tag"); }
+    for (auto &h : p.heldMTags) { bool ok = false; try { ok = h.second && h.second.isValidEntity(); } catch (const std::exception &) {} if (ok) cmp(snapMultiTag(h.second), "multi tag"); }
+    for (auto &h : p.heldArrays) { bool ok = false; try { ok = h.second && h.second.isValidEntity(); } catch (const std::exception &) {} if (ok) cmp(snapArray(h.second), "data array"); }
+    for (auto &h : p.heldGroups) { bool ok = false; try { ok = h.second && h.second.isValidEntity(); } catch (const std::exception &) {} if (ok) cmp(snapGroup(h.second), "group"); }
+}
+
 static void c02Reopen(Prog &p, Ctx &ctx, bool otherProc, const char *when) {
     Ent before = snapshot(p.f);
+    heldHandlesAgree(p, before, ctx, when);
+    p.dropHeld();
     std::string beforeFlat = otherProc ? flatStr(before) : std::string();
     p.f.close();
     {
@@ -115,6 +142,7 @@ static void c02(Tape &t, Ctx &ctx) {
     p.allow_reopen = false;
     ctx.trace << "C02: ";
     p.start(fs.a, fs.b);
+    if (!t.chance(40)) { furnishFile(p.f); ctx.trace << "(furnished) "; }
     size_t nops = 5 + t.below(76);
     size_t deletes = 0, reopens = 0;
     for (size_t i = 0; i < nops; i++) {
@@ -166,6 +194,7 @@ static void c12hist(Tape &t, Ctx &ctx) {
     Prog p(t, ctx.trace, Profile::Valid);
     ctx.trace << "C12: ";
     p.start(fs.a, fs.b);
+    if (t.chance(45)) { furnishFile(p.f); ctx.trace << "(furnished) "; }
     std::map<std::string, std::string> prevByPath;
     std::set<std::string> ever;
     {
@@ -382,6 +411,7 @@ static void c04(Tape &t, Ctx &ctx) {
     Prog p(t, ctx.trace, Profile::Valid);
     ctx.trace << "C04: ";
     p.start(fs.a, fs.b);
+    if (!t.chance(40)) { furnishFile(p.f); ctx.trace << "(furnished) "; }
     Ent prev = snapshot(p.f);
     size_t nops = 8 + t.below(73);
     bool nontrivial = false;
